@@ -6,7 +6,10 @@
 // element × every short sequence of child kinds); styled skeletons × deviation lattice of
 // declarations (levels 0, 1, 2) on the style slots of the elements, of html and body, and on the
 // skeleton's context slots (pseudo-elements, page-margin boxes, footnote area); render
-// configurations (page geometry, hints, engine, zoom).
+// configurations (page geometry, hints, engine, zoom). Second generation (gen2.go, appended after all of
+// the above): @import graphs among style sheets served by the harness fetcher; skeletons with context
+// menus for one flex line in shrink mode, multi-layer backgrounds, grid placement on named lines, a
+// running element with pseudo-elements, preserved tabs.
 package c01
 
 import (
@@ -23,7 +26,7 @@ import (
 type dev struct{ slot, decl int }
 
 type caseT struct {
-	fam  byte // 'm' markup, 's' skeleton, 'g' SVG reference graph, 'n' SVG nesting
+	fam  byte // 'm' markup, 's' skeleton, 'g' SVG reference graph, 'n' SVG nesting, 'i' @import graph
 	sk   int
 	devs []dev
 	cfg  int
@@ -37,6 +40,7 @@ type check struct {
 	tier   string
 	svgs   []string  // SVG documents with reference graphs among their definitions
 	nests  []svgNest // SVG documents with every container holding every short sequence of child kinds
+	imps   []impDoc  // documents whose style sheets form every @import graph on a few sheets
 }
 
 func init() { engine.Register(&check{}) }
@@ -110,7 +114,29 @@ var skeletons = []skeleton{
 	// (the border grid of the whole table is indexed per page fragment when it is drawn)
 	{"table-pages", "", `<table style="border-collapse:collapse;{0}"><thead style="{1}"><tr><th style="border:1px solid">ab</th><th>cd</th></tr></thead><tbody><tr style="{2}"><td style="border:2px solid;{3}">ef</td><td>gh</td></tr>` +
 		strings.Repeat(`<tr><td style="border:1px solid">ij</td><td>kl</td></tr>`, 7) + `</tbody></table>`, 4, nil, tableMenu},
+
+	// ---- second generation (gen2.go): enumerated after all the cases of the skeletons above ----
+	// one flex line in shrink mode: a rigid item wider than the container, two flexible items with a zero flex basis
+	{"flex-line", "", `<div style="display:flex;width:100px;{0}"><div style="flex:none;width:150px;{1}">ab</div><div style="flex:1;{2}">cd ef</div><div style="flex:1;{3}">gh</div></div>`, 4,
+		nil, flexMenu},
+	// boxes with two and three background layers: the list-valued background longhands are cycled per layer
+	{"backgrounds", "", `<div style="background-image:linear-gradient(red,blue),url(` + pngData + `);{0}"><p style="background-image:url(` + pngData + `),linear-gradient(red,blue),radial-gradient(red,blue);{1}">ab cd</p></div>` +
+		`<p style="background:linear-gradient(red,blue);{2}">ef <span style="background-image:linear-gradient(red,blue),linear-gradient(blue,red);{3}">gh ij</span></p>`, 4,
+		nil, backgroundMenu},
+	// grid items placed by line number, line name and span on a grid with named lines
+	{"grid-lines", "", `<div style="display:grid;grid-template-columns:[a] 1fr [b] 1fr [a];grid-template-rows:[r] auto;{0}"><div style="{1}">ab</div><div style="{2}">cd ef</div><span style="{3}">gh</span></div>`, 4,
+		nil, gridLineMenu},
+	// a running element with its own pseudo-elements, placed in a margin box: element() reference graphs
+	{"running-before", `.r{position:running(h)} .r::before{content:"b";{6}} .r::after{content:"a";{7}} @page{@top-center{content:element(h);{8}}}`,
+		`<div class="r" style="{0}">hd <span style="{1}">he</span></div><p style="{2}">ab</p><p style="{3}">cd</p>`, 4,
+		[]string{"::before", "::after", "@top-center"}, elementMenu},
+	// preserved tabs: <pre>, pre-wrap, and a paragraph that collapses them
+	{"pre-tabs", "", `<pre style="{0}">a&#9;b <span style="{1}">c&#9;&#9;d</span></pre><p style="white-space:pre-wrap;{2}">e&#9;f g</p><p style="{3}">h&#9;i</p>`, 4,
+		nil, tabMenu},
 }
+
+// nGen1 is the number of first-generation skeletons: their cases come first and keep their unit numbers.
+const nGen1 = 19
 
 // context menus
 var (
@@ -132,13 +158,17 @@ var skTags = map[string][]string{
 	"running": {"position:running(h)"}, "inline-block": {"display:inline-block"},
 	"toc": {"content:leader('.')", "text-decoration:underline"}, "footnotes": {"float:footnote"}, "running-tree": {"position:running(h)"}, "hyphens": {"hyphens:auto"},
 	"table-pages": {"display:table", "border-collapse:collapse"},
+	"flex-line":   {"display:flex"}, "backgrounds": {"background-layers"}, "grid-lines": {"display:grid"}, "running-before": {"position:running(h)"}, "pre-tabs": {"white-space:pre"},
 }
 
 type decl struct {
 	css     string
 	tag     string // feature tag when the declaration text cannot be one (known-finding lines are split on spaces and commas)
 	invalid bool
-	core    bool // member of the reduced menu explored at level 2 in the quick tier
+	core    bool     // member of the reduced menu explored at level 2 in the quick tier
+	also    []string // more feature tags: the classes of the declaration
+	cpu     float64  // CPU budget (seconds) of the cases that contain a solo declaration
+	solo    bool     // expensive on the unchanged tree (a case that contains it runs into a hang / memory exhaustion): level 1 only, reduced CPU budget
 }
 
 func d(css string) decl  { return decl{css: css} }
@@ -239,7 +269,7 @@ func (c *check) Init(tier string, seed int64) engine.Space {
 	}
 	// level 0 and 1 on every configuration: every declaration of the skeleton's menu on every slot
 	for cfg := range configs {
-		for sk := range skeletons {
+		for sk := range skeletons[:nGen1] {
 			c.cases = append(c.cases, caseT{fam: 's', sk: sk, cfg: cfg})
 			for _, slot := range slotsOf(sk, true) {
 				for di := 0; di < nDecls(sk); di++ {
@@ -255,7 +285,7 @@ func (c *check) Init(tier string, seed int64) engine.Space {
 		geoms = []int{0, 1, 4}
 	}
 	for _, cfg := range geoms {
-		for sk := range skeletons {
+		for sk := range skeletons[:nGen1] {
 			var ds []dev
 			slots := []int{0, 1, 2, 3}
 			if tier == "thorough" {
@@ -277,6 +307,17 @@ func (c *check) Init(tier string, seed int64) engine.Space {
 				}
 			}
 		}
+	}
+	// second generation: @import graphs, then the skeletons after nGen1
+	c.imps = importDocs(tier == "thorough")
+	gen2 := len(c.cases)
+	for i := range c.imps {
+		c.cases = append(c.cases, caseT{fam: 'i', sk: i})
+	}
+	c.cases = appendGen2(c.cases, tier, geoms)
+	if os.Getenv("C01_DEV_GEN2") != "" { // development aid: the second generation alone
+		c.cases = append([]caseT(nil), c.cases[gen2:]...)
+		c.nMark = 0
 	}
 	budget := 260.0
 	if tier == "thorough" {
@@ -302,14 +343,15 @@ func (c *check) Init(tier string, seed int64) engine.Space {
 	}
 	return engine.Space{
 		Units: c.nMark + int64(len(c.cases)), Chunk: 24, Level: "model_checking", BudgetS: budget, CaseCPUs: 10,
-		Rule: "markup: every sequence of HTML tokens up to the length bound; SVG: every reference graph among definitions, and every container element holding every sequence of child kinds up to the length bound; skeletons: every document with 0, 1 (all configurations) and 2 (listed geometries; quick: reduced menu, element slots) declarations from the menu (global menu + the skeleton's context menu) placed on the style slots of the skeletons (4 elements, html, body, and the skeleton's context slots: pseudo-elements, margin boxes, footnote area); every case is rendered and written by the real code; a case is non-trivial when the document produced at least one page with at least one drawing call",
+		Rule: "markup: every sequence of HTML tokens up to the length bound; SVG: every reference graph among definitions, and every container element holding every sequence of child kinds up to the length bound; @import: every import graph among a few style sheets served by the harness fetcher (each sheet imports nothing, itself, another sheet or a missing one), loaded from a <style> or a <link>; skeletons: every document with 0, 1 (all configurations) and 2 (listed geometries; quick: reduced menu, element slots) declarations from the menu (global menu + the skeleton's context menu) placed on the style slots of the skeletons (4 elements, html, body, and the skeleton's context slots: pseudo-elements, margin boxes, footnote area); every case is rendered and written by the real code; second-generation skeletons (listed under second_generation): 0 and 1 declarations with the whole menu on the default configuration (thorough: all), the context menu on the listed configurations, 2 declarations from the context menu (+ listed partners), declarations marked solo at level 1 only; a case is non-trivial when the document produced at least one page with at least one drawing call",
 		Bounds: map[string]any{"markup_tokens": markupTokens, "markup_max_len": mlen, "skeletons": skNames, "declaration_menu": menuNames,
 			"configurations": cfgNames, "deviation_levels": "0,1 on all configurations; 2 on geometries " + fmt.Sprint(geoms), "slots_per_skeleton": "4 element slots + html + body + context slots", "context_slots": ctxSlots, "context_menus": ctxMenus,
+			"second_generation": gen2Bounds(tier), "import_graphs": fmt.Sprintf("%d documents", len(c.imps)),
 			"svg_nesting": fmt.Sprintf("%d documents (17 containers x child sequences of length <= %d over 11 kinds)", len(c.nests), map[bool]int{false: 2, true: 3}[tier == "thorough"])},
 		Assumptions: []string{
 			"documents larger than 4 slots / 2 deviations, and fonts other than Ahem, are not explored",
 			"'never loops forever' is decided up to a page-progress bound (page number > 60, for documents of at most ~12 lines) and a CPU budget of 10 s per case (≈ 1000× the median render)",
-			"all URLs are data: URLs; no network fetches",
+			"all URLs are data: URLs, or URLs under http://t/ served from memory by the harness fetcher; no network fetches",
 		},
 	}
 }
@@ -333,6 +375,15 @@ func (c *check) build(cs *caseT) (html string, o render.Options, features []stri
 		features = uniq(features)
 		return
 	}
+	if cs.fam == 'i' {
+		d := c.imps[cs.sk]
+		html = d.html
+		o.HTML, o.BaseURL, o.Fetcher = html, impBase, d.fetcher()
+		features = append(features, d.feats...)
+		sort.Strings(features)
+		features = uniq(features)
+		return
+	}
 	if cs.fam == 'm' {
 		html = "<style>" + cfg.page + " html,body{font-family:ahem;font-size:10px;line-height:1}</style>" + c.markup.At(cs.mi)
 		o.HTML = html
@@ -347,6 +398,10 @@ func (c *check) build(cs *caseT) (html string, o render.Options, features []stri
 		m := declAt(cs.sk, dv.decl)
 		styles[dv.slot] += m.css + ";"
 		features = append(features, m.feature())
+		if m.solo {
+			features = append(features, "solo")
+		}
+		features = append(features, m.also...)
 		if dv.slot == 4 || dv.slot == 5 {
 			features = append(features, "on-root-or-body")
 		}
@@ -388,6 +443,19 @@ func (c *check) caseOf(u int64) caseT {
 	return c.cases[u-c.nMark]
 }
 
+// soloBudget is the CPU budget of a case that contains a solo declaration (0: none).
+func soloBudget(cs *caseT) float64 {
+	if cs.fam != 's' {
+		return 0
+	}
+	for _, dv := range cs.devs {
+		if m := declAt(cs.sk, dv.decl); m.solo {
+			return m.cpu
+		}
+	}
+	return 0
+}
+
 func hasGrid(f []string) bool {
 	for _, x := range f {
 		if x == "display:grid" || x == "display:inline-grid" || x == "sk:grid" {
@@ -401,7 +469,12 @@ func (c *check) Run(u int64, ctx *engine.Ctx) {
 	cs := c.caseOf(u)
 	html, o, feats := c.build(&cs)
 	desc := fmt.Sprintf("F{%s} hints=%v engine=%s zoom=%g html=%s", strings.Join(feats, "|"), o.Hints, o.Engine, o.Zoom, html)
-	if hasGrid(feats) {
+	if cs.fam == 'i' {
+		desc += " sheets=" + c.imps[cs.sk].sheetsDesc()
+	}
+	if b := soloBudget(&cs); b > 0 {
+		ctx.SetCaseBudget(b) // a declaration known to hang or to exhaust the memory on the unchanged tree
+	} else if hasGrid(feats) {
 		ctx.SetCaseBudget(2) // inside the known non-terminating region: the verdict cannot change the outcome
 	} else {
 		ctx.SetCaseBudget(10)
@@ -462,7 +535,11 @@ func (c *check) FeaturesOf(desc string) []string {
 func (c *check) Describe(u int64) any {
 	cs := c.caseOf(u)
 	html, o, feats := c.build(&cs)
-	return map[string]any{"html": html, "hints": o.Hints, "engine": o.Engine, "zoom": o.Zoom, "features": feats}
+	out := map[string]any{"html": html, "hints": o.Hints, "engine": o.Engine, "zoom": o.Zoom, "features": feats}
+	if cs.fam == 'i' {
+		out["base_url"], out["sheets"] = impBase, c.imps[cs.sk].sheets
+	}
+	return out
 }
 
 // svgRefDocs enumerates reference graphs among SVG definitions: each of n nodes refers to
